@@ -94,9 +94,9 @@ def _rat(v):
 
 
 def _truediv(a, b):
-    if _EXACT[0] and _rat(a) and _rat(b):
-        from fractions import Fraction
-        return Fraction(a) / Fraction(b)
+    from fractions import Fraction
+    if _EXACT[0] and isinstance(a, (int, Fraction)) and isinstance(b, (int, Fraction)):
+        return Fraction(a) / Fraction(b)        # (bools are ints: 1996 / True)
     return a / b
 
 
